@@ -181,6 +181,37 @@ size_t usedSize(const std::map<UPair, L> &e) {
     return s;
 }
 
+// The file must be exactly one record LE32(src) LE32(dst) LE(label) per edge of the model.
+template <class L>
+std::string layoutCheck(const std::string &bytes, const BModel<L> &m, std::string &observer) {
+    size_t rec = 8 + Val<L>::size;
+    if (bytes.size() != rec * m.e.size()) {
+        observer = "file-length";
+        return "file has " + std::to_string(bytes.size()) + " bytes expected edges x record size = " + std::to_string(m.e.size()) + " x " + std::to_string(rec);
+    }
+    std::set<UPair> seen;
+    for (size_t k = 0; k < m.e.size(); ++k) {
+        const unsigned char *p = reinterpret_cast<const unsigned char *>(bytes.data()) + k * rec;
+        uint32_t a = p[0] | (p[1] << 8) | (p[2] << 16) | ((uint32_t)p[3] << 24), b = p[4] | (p[5] << 8) | (p[6] << 16) | ((uint32_t)p[7] << 24);
+        auto it = (a < (1u << 30) && b < (1u << 30)) ? m.e.find(m.key(a, b)) : m.e.end();
+        if (it == m.e.end()) {
+            observer = "file-bytes";
+            return "record " + std::to_string(k) + " reads as (" + std::to_string(a) + "," + std::to_string(b) + ") in little-endian, which is not an edge of the graph";
+        }
+        if (!seen.insert(it->first).second) {
+            observer = "file-bytes";
+            return "edge (" + std::to_string(a) + "," + std::to_string(b) + ") is written twice";
+        }
+        std::string lab;
+        Val<L>::le(lab, it->second);
+        if (std::string(bytes.data() + k * rec + 8, Val<L>::size) != lab) {
+            observer = "file-bytes";
+            return "label bytes of record " + std::to_string(k) + " are not the little-endian bytes of the label";
+        }
+    }
+    return "";
+}
+
 template <class G>
 std::string roundTrip(const Case &c, std::string &observer, std::set<std::string> &tags) {
     typedef typename BT<G>::Label L;
@@ -191,28 +222,11 @@ std::string roundTrip(const Case &c, std::string &observer, std::set<std::string
     BT<G>::write(g, f1.p);
     std::string bytes = readAll(f1.p);
     size_t rec = 8 + Val<L>::size;
-    // (2) layout: record for record in edges() order
-    std::string expect;
-    for (auto e : g.edges()) {
-        le32(expect, e.first);
-        le32(expect, e.second);
-        auto it = m.e.find(m.key(e.first, e.second));
-        if (it == m.e.end()) {
-            observer = "harness";
-            return "edges() yields a pair that is not in the model";
-        }
-        Val<L>::le(expect, it->second);
-    }
-    if (bytes.size() != rec * m.e.size()) {
-        observer = "file-length";
-        return "file has " + std::to_string(bytes.size()) + " bytes expected edges x record size = " + std::to_string(m.e.size()) + " x " + std::to_string(rec);
-    }
-    if (bytes != expect) {
-        size_t at = 0;
-        while (at < bytes.size() && bytes[at] == expect[at])
-            ++at;
-        observer = "file-bytes";
-        return "file bytes differ from LE32(src) LE32(dst) LE(label) at offset " + std::to_string(at) + " (record " + std::to_string(at / rec) + ", field byte " + std::to_string(at % rec) + ")";
+    // (2) layout: nothing but one record per edge (any record order; either orientation of an undirected pair)
+    {
+        std::string why = layoutCheck<L>(bytes, m, observer);
+        if (!why.empty())
+            return why;
     }
     // (1) round trip
     {
@@ -299,15 +313,11 @@ std::string bigIndex(const Case &c, std::string &observer, std::set<std::string>
         g.addEdge(r.first.first, r.first.second, r.second);
     FileGuard f1{scratchFile(".big")};
     BT<G>::write(g, f1.p);
-    std::string bytes = readAll(f1.p), expect;
-    for (auto e : g.edges()) {
-        le32(expect, e.first);
-        le32(expect, e.second);
-        Val<L>::le(expect, m.e[m.key(e.first, e.second)]);
-    }
-    if (bytes != expect) {
-        observer = "file-bytes";
-        return "file bytes differ from LE32(src) LE32(dst) LE(label) (indices up to " + std::to_string(n) + ")";
+    std::string bytes = readAll(f1.p);
+    {
+        std::string why = layoutCheck<L>(bytes, m, observer);
+        if (!why.empty())
+            return why + " (indices up to " + std::to_string(n) + ")";
     }
     G h = BT<G>::load(f1.p);
     if (h.getSize() != n || h.getEdgeNumber() != m.e.size()) {
